@@ -85,6 +85,8 @@ def generate(rng, tier):
             base = sc.gen_shared_delay(rng)
         elif i % 9 == 7:
             base = sc.gen_connect_chain(rng)       # same-named components with connect-phase dependencies
+        elif i % 9 == 5:
+            base = sc.gen_lazy_infos(rng)          # infos known only in the connect phase on both ends of several links
         elif i % 9 == 1:
             base = sc.gen_shared_and_own(rng)      # a branching shared adapter next to a non-branching one on one output
         elif i % 3 == 2:
